@@ -76,6 +76,19 @@ def run(ctx):
             uses = q.local_uses(f, t['dest']['l'])
             verdicts = []
 
+            def retry(y_):
+                # `r.or_else(|_| other_attempt())`: the error is replaced by the outcome of another fallible attempt (the
+                # auto-detection chain), not by a default — judged by what consumes the combined result
+                if short(y_['callee'].get('path') or y_['callee'].get('def') or '') != 'or_else' or len(y_['args']) < 2:
+                    return False
+                e_ = f.call_expr(y_, 0)
+                cf_, _ = q.closure_of(b, e_[2][1])
+                if cf_ is None:
+                    return False
+                r_ = strip_refs(q.ret_expr(cf_))
+                # only the documented chain: the other attempt is another *parser* on the same text
+                return r_[0] == 'call' and short(r_[1]) == 'from_str' and r_[1].split('::')[0] in ('json', 'gambit')
+
             def through(tt, as_option, depth=0):
                 # a combinator that keeps the failure (`map`, `map_err`: still a Result; `ok()`: a None that must then
                 # be matched / unwrapped, never defaulted): judge the consumers of its result instead
@@ -89,7 +102,7 @@ def run(ctx):
                         out_.append('match')
                     elif k2 == 'arg':
                         s2 = short(y['callee'].get('path') or y['callee'].get('def') or '')
-                        if s2 in ('map', 'map_err') and not as_option:
+                        if (s2 in ('map', 'map_err') or retry(y)) and not as_option:
                             out_ += through(y, False, depth + 1)
                         elif s2 == 'ok' and not as_option:
                             out_ += through(y, True, depth + 1)
@@ -101,7 +114,7 @@ def run(ctx):
                         out_.append('returned')
                 return out_ or ['ok' if as_option else 'map']
             for bj, kind, x in uses:
-                if kind == 'arg' and short(x['callee'].get('path') or x['callee'].get('def') or '') in ('map', 'map_err', 'ok'):
+                if kind == 'arg' and (short(x['callee'].get('path') or x['callee'].get('def') or '') in ('map', 'map_err', 'ok') or retry(x)):
                     verdicts += through(x, short(x['callee'].get('path') or x['callee'].get('def') or '') == 'ok')
                 elif kind == 'arg':
                     verdicts.append(short(x['callee'].get('path') or x['callee'].get('def') or ''))
@@ -138,6 +151,33 @@ def run(ctx):
             errs = [c for c in af.conds(bi) if c['kind'] == 'variant' and c['variants'] == ['Err']]
             if len(errs) >= 2:
                 ok = True
+            elif len(errs) == 1:
+                # one Err test of the combined outcome `json(..).or_else(|_| gambit(..))`
+                oe = q.find_sub(errs[0]['a'], lambda s_: q.is_call(s_, 'or_else') and len(s_[2]) == 2)
+                if oe is not None and q.find_sub(oe[2][0], lambda s_: s_[0] == 'call' and short(s_[1]) == 'from_str') is not None:
+                    cf_, _ = q.closure_of(b, oe[2][1])
+                    if cf_ is not None and any(short(p_) == 'from_str' for _, _, p_ in cf_.calls()):
+                        ok = True
+        if not ok:
+            # the chain written with combinators: `json.ok().or_else(|| gambit.ok()).expect(..)` diverges inside expect when
+            # both attempts came back Err
+            for bi, t, e in q.calls_named(af, 'expect') + q.calls_named(af, 'unwrap'):
+                if 'Option' not in e[1] or not e[2]:
+                    continue
+                v0 = strip_refs(e[2][0])
+                srcs = set()
+                todo_ = [v0]
+                seen_ = 0
+                while todo_ and seen_ < 40:
+                    x_ = todo_.pop()
+                    seen_ += 1
+                    for y_ in facts.walk(x_):
+                        if y_[0] == 'call' and short(y_[1]) == 'from_str':
+                            srcs.add(y_[1].split('::')[0])
+                        if y_[0] == 'var':
+                            todo_.extend(strip_refs(v_) for _, _, v_ in q.multi_def_values(af, y_[1]) if strip_refs(v_) != y_)
+                if srcs >= {'json', 'gambit'}:
+                    ok = True
         ctx.verdict(ok, rule, rule + ':auto-chain-diverges', 'the auto-detection chain panics when every parser returned Err', af.where(panics[0]) if panics else af.where(0), 'panic guarded by Err of both attempts: %s' % ok,
                     breaks='unparseable input falls through to some game')
 
@@ -162,14 +202,39 @@ def run(ctx):
     for suf in ('json::from_reader', 'gambit::from_reader', 'auto::from_reader', 'json::from_str', 'gambit::from_str'):
         r, par = e1.reach(b, suf)
         if r is None:
-            ctx.anchor_lost(rule, 'instance-graph root ' + suf, hard=True)
+            # a private function of the binary (renamed / merged into another module): the whole-binary rule below
+            # (who may write at all) still decides the clause
+            ctx.anchor_lost(rule, 'instance-graph root ' + suf)
             continue
         h = e1.hits(b, par, lambda n_: e1.node_path(n_) in ('std::io::stdout', 'std::io::_print', 'std::fs::File::create') or e1.node_path(n_).startswith('serde_json::to_writer'))
         ctx.verdict(not h, rule, '%s:reader-cannot-print:%s' % (rule, suf), 'no reader function can reach io::stdout / File::create / to_writer', '', '%d instances reached, %d output functions' % (len(par), len(h)))
         ctx.stats['paths'] += len(par)
     # who calls stdout in the whole binary
     callers = sorted({q.top(f.name) for f in b.non_test_fns() for bi, t, p in f.calls() if p in ('std::io::stdout', 'std::fs::File::create') or (short(p).startswith('to_writer') and 'serde_json' in p)})
-    ctx.verdict(callers == ['main'], rule, rule + ':only-main-writes', 'output functions are called from main only', '', 'callers: %s' % callers)
+    # ... or from an output helper that main (and nobody else) calls after the solve has succeeded
+    def late_helper(w, depth=0):
+        if w == 'main':
+            return True
+        sites_ = [(g_, bi_) for g_ in b.non_test_fns() for bi_, t_, p_ in g_.calls() if p_ == w or (t_['callee'].get('path') or '') == w]
+        if not sites_:
+            # every call of it has been spliced into its callers by the normalisation: judged there
+            return w in (b.inline_stats.get('sites_fns') or {x.split('<- ', 1)[1] for x in b.inline_stats.get('sites', []) if '<- ' in x})
+        if depth > 3:
+            return False
+        for g_, bi_ in sites_:
+            top_ = q.top(g_.name)
+            if top_ == 'main':
+                mm = b.one('main')
+                su = None
+                for bj, tj, ej in q.calls_named(mm, 'unwrap') + q.calls_named(mm, 'expect'):
+                    if q.find_sub(ej[2][0], lambda s_: q.is_call(s_, 'solve') and 'Game' in s_[1]) is not None:
+                        su = bj
+                if g_ is not mm or su is None or not mm.dominates(su, bi_):
+                    return False
+            elif not late_helper(top_, depth + 1):
+                return False
+        return True
+    ctx.verdict(bool(callers) and all(late_helper(w) for w in callers), rule, rule + ':only-main-writes', 'output functions are called from main only (or from a helper main calls after the solve succeeded)', '', 'callers: %s' % callers)
 
     # ---------------- (3a) the constant-sum scan accumulates the outcome of every kind of node
     rule = 'C17.constant-sum-scan'
@@ -254,6 +319,21 @@ def run(ctx):
             n_q += 1
             cap = strip_refs(agg[2][comp[1]])
             if cap[0] == 'var' and cap[1] in acc_locals:
+                # queued from the accumulator: then only after this node's own outcome has been added to it — every
+                # accumulating store of the same node-kind arm comes before the queueing
+                arm = [c['variants'][0] for c in gg.conds(bi) if c['kind'] == 'variant' and len(c['variants']) == 1 and c['variants'][0] in ('Terminal', 'Chance', 'Player')]
+                late = []
+                for bj, st_, pl_, rhs_ in q.stores(gg):
+                    rr_ = strip_refs(rhs_)
+                    if not (rr_[0] == 'bin' and rr_[1] == 'Add' and norm(rr_[2]) == norm(pl_)):
+                        continue
+                    if not any(y[0] == 'var' and y[1] in acc_locals for y in facts.walk(pl_)):
+                        continue
+                    arm_j = [c['variants'][0] for c in gg.conds(bj) if c['kind'] == 'variant' and len(c['variants']) == 1 and c['variants'][0] in ('Terminal', 'Chance', 'Player')]
+                    if arm and arm_j and arm[-1] == arm_j[-1] and gg.dominates(bi, bj) and bi != bj:
+                        late.append(gg.where(bj))
+                if late:
+                    stale.append((gg.where(bi), 'children queued before the node\'s own outcome is added (%s)' % late[0]))
                 continue
             if q.find_sub(cap, lambda x: q.is_call(x, 'pop')) is not None or (cap[0] in ('field', 'downcast') and acc_locals):
                 stale.append((gg.where(bi), facts.show(cap)[:50]))
@@ -270,7 +350,8 @@ def run(ctx):
                 ctx.anchor_lost(rule, 'gambit::from_str: ' + callee)
                 continue
             bi = cs[0][0]
-            two = any(((c['kind'] == 'Ne' and c['truth'] is False) or (c['kind'] == 'Eq' and c['truth'] is True)) and is_const(c['b'], 2) and 'player_names' in facts.show(c['a']) for c in fs.conds(bi))
+            two = any(((c['kind'] == 'Ne' and c['truth'] is False) or (c['kind'] == 'Eq' and c['truth'] is True)) and is_const(c['b'], 2) and 'player_names' in facts.show(c['a']) for c in fs.conds(bi)) or \
+                any(c['kind'] == 'value' and c.get('values') == ['2'] and 'player_names' in facts.show(c['a']) for c in fs.conds(bi))     # `match names.len() { 2 => .. }`
             # `?` on the parse, or the same thing spelled as a match (Ok edge of the try_from result)
             parsed = any(c['kind'] == 'variant' and (c['variants'] == ['Continue'] or (c['variants'] == ['Ok'] and q.find_sub(c['a'], lambda s_: q.is_call(s_, 'try_from')) is not None)) for c in fs.conds(bi))
             ctx.verdict(two and parsed, rule, '%s:two-players-before:%s' % (rule, callee), 'the parse succeeded and the player count is exactly two before %s runs' % callee, fs.where(bi),
@@ -286,6 +367,27 @@ def run(ctx):
             cmpc = [c for c in cs if c['kind'] in ('Gt', 'Lt', 'Ge', 'Le') and c.get('truth') is False and 'Mul' in facts.show(c['a']) + facts.show(c['b'])]
             ctx.verdict(bool(cmpc), rule, rule + ':constant-sum-before-info', 'GlobalInfo is built only on the passing edge of the constant-sum range test', gi.where(bi),
                         'dominating range test: %s' % ((cmpc and (cmpc[-1]['kind'], cmpc[-1]['truth'], facts.show(cmpc[-1]['a'])[:50])),), breaks='non-constant-sum games are solved as if zero-sum')
+        # each range in that test is (running max of X) - (running min of the *same* X)
+        def running(l):
+            vals = [strip_refs(v) for _, _, v in q.multi_def_values(gi, l)]
+            me = ('var', l, gi.local_name(l))
+            upd = [v for v in vals if v[0] == 'call' and short(v[1]) in ('max', 'min') and 'f64' in v[1] and len(v[2]) == 2 and any(strip_refs(a) == me for a in v[2])]
+            if len(upd) != 1:
+                return None
+            other = [a for a in upd[0][2] if strip_refs(a) != me]
+            return (short(upd[0][1]), facts.show(norm(other[0]))) if other else None
+        for bi, st, fields in gsites[:1]:
+            cmpc = [c for c in gi.conds(bi) if c['kind'] in ('Gt', 'Lt', 'Ge', 'Le') and c.get('truth') is False and 'Mul' in facts.show(c['a']) + facts.show(c['b'])]
+            if not cmpc:
+                continue
+            subs = [x for side in (cmpc[-1]['a'], cmpc[-1]['b']) for x in facts.walk(side) if x[0] == 'bin' and x[1] == 'Sub' and strip_refs(x[2])[0] == 'var' and strip_refs(x[3])[0] == 'var']
+            pairs = [(running(strip_refs(x[2])[1]), running(strip_refs(x[3])[1])) for x in subs]
+            if len(subs) == 2 and all(a is not None and b is not None for a, b in pairs):
+                good = all(a[0] == 'max' and b[0] == 'min' and a[1] == b[1] for a, b in pairs) and pairs[0][0][1] != pairs[1][0][1]
+                ctx.verdict(good, rule, rule + ':constant-sum-ranges', 'the constant-sum test compares (max - min) of the pair sums with (max - min) of player one\'s payoffs: each range takes both ends from the same quantity', gi.where(bi),
+                            'ranges: %s' % [('%s(%s) - %s(%s)' % (a[0], a[1][:20], b[0], b[1][:20])) for a, b in pairs], breaks='files that are far from constant sum are accepted when the payoffs are offset')
+            else:
+                ctx.anchor_lost(rule, 'get_global_info: the two ranges of the constant-sum test', 'found %d differences of running extremes' % len(subs))
         # finite test on every terminal sum: min/max updates dominated by is_finite true edge
         n_upd = 0
         okf = True
@@ -376,3 +478,24 @@ def run(ctx):
                                 breaks='two different infosets with the same name are silently merged and another game is solved')
     if n_sets < 1:
         ctx.anchor_lost(rule, 'a HashSet consulted with contains -> panic')
+    # the set of names seen is per player: it is created inside the loop over the players, so a name may be used once by
+    # *each* player (renaming both players' infosets to the same labels keeps a valid file valid)
+    rule = 'C17.names-per-player'
+    ggi = b.one('gambit::get_global_info')
+    if ggi is not None:
+        for l_ in ggi.names:
+            if 'HashSet<' not in ggi.locals[l_]['ty'] or not ggi.locals[l_]['ty'].startswith('std::collections::HashSet<'):
+                continue
+            me_ = ('var', l_, ggi.local_name(l_))
+            site_ = q.def_site(ggi, l_)
+            ins_ = [bi for bi, t, e in q.calls_named(ggi, 'insert') if 'HashSet' in e[1] and e[2] and (strip_refs(e[2][0]) == me_ or (strip_refs(e[2][0])[0] == 'call' and strip_refs(e[2][0])[3] == site_))]
+            tested = [bi for bi in ins_ if any(k_ == 'switch' or k_ == 'stmt' for _, k_, _x in q.local_uses(ggi, ggi.blocks[bi]['term']['dest']['l']))]
+            if not tested or site_ is None:
+                continue
+            # only the set whose insert result rejects a duplicate *name* (its element type is a string)
+            if 'str' not in ggi.locals[l_]['ty'] and 'String' not in ggi.locals[l_]['ty']:
+                continue
+            dblk = site_[1]
+            in_loop = any(dblk in body and all(bi in body for bi in tested) for h_, body in ggi.loops)
+            ctx.verdict(in_loop, rule, '%s:%s' % (rule, ggi.local_name(l_)), 'the set that rejects a repeated infoset name starts empty for each player', ggi.where(dblk),
+                        'set created inside the loop over the players: %s' % in_loop, breaks='a file in which both players use the same infoset label is rejected although each player\'s names are unique')
